@@ -20,7 +20,7 @@ MANIFEST = {
 
 BOUNDS = {
     'quick': {'identity': [(2, 3), (3, 3), (4, 2), (4, 3)], 'corollaries': [(3, 3), (4, 2)], 'identifier': [(3, 3), (4, 4)], 'flag': [(0, 0)]},
-    'thorough': {'identity': [(3, 4), (4, 4), (5, 3), (6, 2)], 'corollaries': [(4, 3), (5, 2)], 'identifier': [(4, 4), (5, 5)], 'flag': [(0, 0)]},
+    'thorough': {'identity': [(3, 4), (4, 4), (5, 3), (6, 2), (7, 2), (6, 3)], 'corollaries': [(4, 3), (5, 2)], 'identifier': [(4, 4), (5, 5)], 'flag': [(0, 0)]},
 }
 
 NAMES = ['MI', 'MI-numba-randomized', 'MI-numba-3mr', 'MI-numba', 'max-value-coverage', 'AMI', 'correlation-Pearson', 'Constant', 'surrogate-SGD']
